@@ -32,8 +32,14 @@ def gen_init(rng, lo=4, hi=12):
         y[0] += 1
     if rng.random() < 0.1:
         y = [v / 2 ** rng.choice([20, 30]) for v in y]       # small units
+    int_y = rng.random() < 0.12
+    if int_y:
+        y = [Fraction(int(v)) for v in y]                     # integer dtype (counts)
+        if len(set(y)) == 1:
+            y[0] += 1
+    int_x = rng.random() < 0.12 and all(v.denominator == 1 for v in x)
     return {"x": [str(v) for v in x], "y": [str(v) for v in y],
-            "as_list": rng.random() < 0.25, "int_x": False, "x_none": rng.random() < 0.05}
+            "as_list": rng.random() < 0.25, "int_x": int_x, "int_y": int_y, "x_none": rng.random() < 0.05}
 
 
 def gen_domain_op(rng, allow=DOMAIN):
@@ -155,8 +161,14 @@ def build(c):
         return (lambda: Weaver.from_2d_array(arr)), [arr], line
     if c["as_list"]:
         cx, cy = floats(x), floats(y)
+        if c.get("int_y"):
+            cy = [int(v) for v in y]
     else:
         cx, cy = np.array(floats(x)), np.array(floats(y))
+        if c.get("int_y"):
+            cy = np.array([int(v) for v in y])
+        if c.get("int_x"):
+            cx = np.array([int(v) for v in x])
     if c.get("x_none"):
         cx = None
     line = f"winit {fmt_opt(None if cx is None else x)} {fmt_list(y)}"
@@ -224,6 +236,20 @@ def apply_op(w, op, rng_state=None):
         ra = rv * span + float(x[0]) if op["rr"] else rv
         if not la < ra and not op.get("force"):
             raise Skip()      # empty / inverted range: not a valid request (exercised by the malformed stream)
+        if not op.get("force"):
+            # the reference is cut with the same arguments but its own samples / span: keep clear of its samples too
+            rxs = np.asarray(w.reference_x, dtype=float)
+            rspan = float(rxs[-1] - rxs[0]) if len(rxs) else 0.0
+            for v, ratio, tok in ((lv, op["lr"], lt), (rv, op["rr"], rt)):
+                if tok.startswith("@"):
+                    continue
+                t = v * rspan + float(rxs[0]) if ratio else v
+                if len(rxs) and np.min(np.abs(rxs - t)) <= 1e-9 * max(abs(rspan), 1e-300):
+                    raise Skip()
+            lra = lv * rspan + float(rxs[0]) if op["lr"] else lv
+            rra = rv * rspan + float(rxs[0]) if op["rr"] else rv
+            if not lra < rra:
+                raise Skip()
         line = f"wop truncv {lt} {rt} {1 if op['lr'] else 0} {1 if op['rr'] else 0}"
         op["_line"] = line
         op["_args"] = [lv, rv]
@@ -294,7 +320,11 @@ def apply_op(w, op, rng_state=None):
             return f"wop interpn {op['n']} {m} {ext}"
         n = len(x)
         toks, vals = [], []
-        if op.get("bad_ends"):
+        if op.get("ref_ends"):
+            r0 = float(np.asarray(w.reference_x, dtype=float)[0])
+            toks.append(fmt(Fraction(r0)))
+            vals.append(r0)
+        elif op.get("bad_ends"):
             toks.append(fmt(Fraction(float(x[0]) - 1.0)))
             vals.append(float(x[0]) - 1.0)
         else:
@@ -316,8 +346,13 @@ def apply_op(w, op, rng_state=None):
             if float(x[i]) < mid < float(x[i + 1]):
                 toks.append(fmt(Fraction(mid)))
                 vals.append(mid)
-        toks.append("@-1")
-        vals.append(float(x[-1]))
+        if op.get("ref_ends"):
+            r1 = float(np.asarray(w.reference_x, dtype=float)[-1])
+            toks.append(fmt(Fraction(r1)))
+            vals.append(r1)
+        else:
+            toks.append("@-1")
+            vals.append(float(x[-1]))
         gl = ",".join(toks)
         op["_line"] = f"wop interpx {gl} {m} -"
         g = list(vals) if op.get("as_list") else np.array(vals)
